@@ -486,6 +486,26 @@ func checkC09(c *Check) {
 
 	// ---- 4/5: Runner Error sites carry an explanation
 	checkRunnerErrorSites(c, sc)
+
+	// a tracee killed between a stop and the tracer's next request (ESRCH) is not turned into a verdict of its own:
+	// the vanished-tracee rules of C15.2, which include that the error compared with ESRCH is the primitive's errno
+	sub := NewCheck("C15", c.Tier, c.P)
+	var wsHandle *ssa.Function
+	for _, f := range c.P.PkgFuncs("ptracer") {
+		sig := f.Signature
+		if sig.Recv() != nil && sig.Results().Len() == 4 && sig.Params().Len() == 2 && strings.HasSuffix(sig.Params().At(1).Type().String(), "WaitStatus") {
+			wsHandle = f
+		}
+	}
+	if wsHandle == nil {
+		c.Undecided("6/vanished-tracee", "ptracer.handle", "-", "cannot resolve the wait-status handler")
+	} else {
+		checkESRCH(sub, wsHandle)
+		for _, o := range sub.Obs {
+			c.Obs = append(c.Obs, Obligation{Rule: "C09.6/vanished-tracee", Key: o.Key, Pos: o.Pos, Status: o.Status, Msg: o.Msg})
+		}
+	}
+	c.Expect("6/vanished-tracee", 4)
 }
 
 func isErrorType(t types.Type) bool {
